@@ -63,5 +63,24 @@ known("C01", "C01-named-fragment-reused", ["frag-named-twice"], r"^diff:EXTRA (i
 known("C01", "C01-memberless-interface-crash", ["memberless-abstract"], r"^crash: panic: runtime error: index out of range \[N\] with length N @ planner/sanitize_selection_set\.go:135$",
       "addScrubFieldsToSelectionSet indexes pt[0] for an interface without implementers; the panic happens in an AsyncMapReduce worker and kills the process", witness="{ lonely { x } }")
 
+# ----------------------------------------------------------------------------- C02 (same defect classes seen at the plan / sub-request level)
+C02 = [
+ ("root-node", ["root-node"], [r"^plan-drops-client-field: (__typename|node|id|<field>)$", r"^subrequest-invalid: Cannot query field \"<x>\" on type \"<x>\"\.", r"^subrequest-invalid: Fields \"id\" conflict",
+                r"^plan-adds-non-helper-field$", r"^helper-not-registered-for-removal: (id|__typename)$", r"^subrequest-invalid: Expected \{, found"], RN),
+ ("root-node-no-root-steps-crash", ["root-node", "root-node-fragments-0"], [r"^crash: panic: runtime error: invalid memory address or nil pointer dereference @ executor/depth_executor_manager\.go:60$"],
+                "root node() without inline fragments yields a plan with no root step; the executor dereferences a nil depth executor in a worker goroutine"),
+ ("var-only-in-directive", ["var-only-in-directive"], [r"^subrequest-invalid: Variable \"\$<var>\" is not defined\.$"], "a variable used only in a directive is not declared in the sub-request"),
+ ("var-default-lost", ["var-default-used"], [r"^subrequest-variable-error: ", r"^variable-value-differs: want \w+ got null$"], "client-declared variable defaults do not reach the service"),
+ ("alias-is-id", ["alias-is-id"], [r"^subrequest-invalid: Fields \"id\" conflict", r"^plan-drops-client-field: <field>$"], "alias named id collides with the injected helper id"),
+ ("interface-field", ["interface-field"], [r"^subrequest-invalid: Expected \{, found", r"^plan-adds-non-helper-field$", r"^subrequest-invalid: Unknown type"], "interface-typed fields are rewritten into per-type fragments that may be empty or name types the receiver lacks"),
+ ("node-typed-field", ["node-interface-field"], [r"^subrequest-invalid: Expected \{, found", r"^plan-adds-non-helper-field$", r"^subrequest-invalid: Unknown type", r"^plan-drops-client-field: ", r"^helper-not-registered-for-removal: "],
+                "fields typed as the Node interface are rewritten into per-type fragments that may be empty or name types the receiver lacks"),
+ ("named-fragment-reused", ["frag-named-twice"], [r"^helper-not-registered-for-removal: (id|__typename)$"], "a named fragment spread twice has its injected helper registered only for the first use"),
+ ("memberless-interface-crash", ["memberless-abstract"], [r"^crash: panic: runtime error: index out of range \[N\] with length N @ planner/sanitize_selection_set\.go:135$"], "pt[0] on an interface without implementers"),
+]
+for name, atoms, sigs, what in C02:
+    for i, sg in enumerate(sigs):
+        known("C02", "C02-%s-%d" % (name, i), atoms, sg, what)
+
 json.dump(E, open('/verif/known_findings.json', 'w'), indent=1, ensure_ascii=False)
 print(len(E), "entries")
